@@ -62,7 +62,7 @@ CHECKS.update({
 })
 
 CHECKS.update({
- "C16": ("fault_enumeration", "Hypothesis-generated feeds x segmentations x delays x connection drops against the real binaries (pty/TCP/log black box); expected line sequence oracle",
+ "C16": ("exploration", "Hypothesis-generated feeds x segmentations x delays x connection drops (FIN and RST) against the real binaries (pty/TCP/log black box); expected line sequence oracle",
          "Well-formed lines interleaved with 27 kinds of malformed line, cut anywhere with pauses on both sides of the 50 ms read timeout, dropped at arbitrary byte offsets with and without --retry-tcp; the well-formed lines must be processed exactly once in order by both clients, the clients must survive, exit cleanly on disconnect or reconnect and keep their aircraft.",
          "Timing is requested, not controlled: the verdict never depends on measured time. Failures that depend on kernel scheduling may not reproduce on every replay (replay retries 5 times).", "5 C16"),
  "C17": ("exploration", "Hypothesis-generated operator sessions (keys, key bursts, SGR mouse, resizes, traffic, expiry, option sets) on a real pty; liveness / exit status / termios / escape-sequence oracle; CLI invalid-value grammar",
